@@ -63,11 +63,19 @@ pub enum Term {
     ZCollectX,
     ZIntoSplit,
     ZIntoVec,
+    /// collects of a 136-byte (`W`) and a 64 KiB (`H`) output type: `.map(Wide::new)` / `.map(Big::new)` appended
+    WCollect,
+    WCollectVec,
+    WCollectX,
+    WIntoVec,
+    HCollect,
+    HCollectVec,
+    HCollectX,
     /// build the computation, never run it
     Build,
 }
 
-pub const ALL_TERMS: [(Term, &str); 33] = [
+pub const ALL_TERMS: [(Term, &str); 40] = [
     (Term::CollectVec, "collect_vec"),
     (Term::Collect, "collect"),
     (Term::CollectX, "collect_x"),
@@ -100,6 +108,13 @@ pub const ALL_TERMS: [(Term, &str); 33] = [
     (Term::ZCollectX, "zcollect_x"),
     (Term::ZIntoSplit, "zinto_split"),
     (Term::ZIntoVec, "zinto_vec"),
+    (Term::WCollect, "wcollect"),
+    (Term::WCollectVec, "wcollect_vec"),
+    (Term::WCollectX, "wcollect_x"),
+    (Term::WIntoVec, "winto_vec"),
+    (Term::HCollect, "hcollect"),
+    (Term::HCollectVec, "hcollect_vec"),
+    (Term::HCollectX, "hcollect_x"),
     (Term::Build, "build"),
 ];
 
@@ -111,7 +126,10 @@ impl Term {
         ALL_TERMS.iter().find(|x| x.1 == s).map(|x| x.0)
     }
     pub fn is_collect_ordered(self) -> bool {
-        matches!(self, Term::CollectVec | Term::Collect | Term::IntoVec | Term::IntoSplitD | Term::IntoSplitL | Term::IntoFixed | Term::IntoSplitL2)
+        matches!(
+            self,
+            Term::CollectVec | Term::Collect | Term::IntoVec | Term::IntoSplitD | Term::IntoSplitL | Term::IntoFixed | Term::IntoSplitL2 | Term::WCollect | Term::WCollectVec | Term::WIntoVec | Term::HCollect | Term::HCollectVec
+        )
     }
     pub fn is_collect_into(self) -> bool {
         matches!(self, Term::IntoVec | Term::IntoSplitD | Term::IntoSplitL | Term::IntoFixed | Term::IntoSplitL2)
@@ -126,7 +144,11 @@ impl Term {
         )
     }
     pub fn needs_tok(self) -> bool {
-        matches!(self, Term::Fold | Term::Sum | Term::Min | Term::Max | Term::MinBy | Term::MaxBy | Term::MinByKey | Term::MaxByKey | Term::MinTie | Term::MaxTie) || self.is_zst()
+        matches!(self, Term::Fold | Term::Sum | Term::Min | Term::Max | Term::MinBy | Term::MaxBy | Term::MinByKey | Term::MaxByKey | Term::MinTie | Term::MaxTie) || self.is_zst() || self.is_wide()
+    }
+    /// collects of a wide output type
+    pub fn is_wide(self) -> bool {
+        matches!(self, Term::WCollect | Term::WCollectVec | Term::WCollectX | Term::WIntoVec | Term::HCollect | Term::HCollectVec | Term::HCollectX)
     }
     /// terminals over a zero-sized item type
     pub fn is_zst(self) -> bool {
@@ -288,6 +310,13 @@ impl VisitTok for TermV {
             Term::ZCollectX => TermResult::Count(q.map(drop::<Tok>).collect_x().len()),
             Term::ZIntoSplit => TermResult::Count(q.map(drop::<Tok>).collect_into(SplitVec::<(), Doubling>::with_doubling_growth()).len()),
             Term::ZIntoVec => TermResult::Count(q.map(drop::<Tok>).collect_into(vec![(), ()]).len() - 2),
+            Term::WCollect => TermResult::Ids(q.map(crate::tok::Wide::new).collect().iter().map(|w| w.0.id).collect()),
+            Term::WCollectVec => TermResult::Ids(q.map(crate::tok::Wide::new).collect_vec().iter().map(|w| w.0.id).collect()),
+            Term::WCollectX => TermResult::Ids(q.map(crate::tok::Wide::new).collect_x().iter().map(|w| w.0.id).collect()),
+            Term::WIntoVec => TermResult::Ids(q.map(crate::tok::Wide::new).collect_into(Vec::new()).iter().map(|w| w.0.id).collect()),
+            Term::HCollect => TermResult::Ids(q.map(crate::tok::Big::new).collect().iter().map(|w| w.0.id).collect()),
+            Term::HCollectVec => TermResult::Ids(q.map(crate::tok::Big::new).collect_vec().iter().map(|w| w.0.id).collect()),
+            Term::HCollectX => TermResult::Ids(q.map(crate::tok::Big::new).collect_x().iter().map(|w| w.0.id).collect()),
             _ => TermResult::NA,
         }
     }
